@@ -13,6 +13,9 @@
 #include <sys/stat.h>
 #include <algorithm>
 #include <fenv.h>
+#include <stdarg.h>
+#include <wchar.h>
+#include <arpa/inet.h>
 
 Sim g_sim;
 LibImage g_lib;
@@ -394,7 +397,10 @@ static bool alloc_request(Task *t, uintptr_t ra, uint32_t *site_out) {
 // result or its continuation state in static storage shared by all threads
 const char *g_libc_static_names[] = {"asctime", "ctime", "localtime", "gmtime", "strtok", "tmpnam(NULL)", "rand", "setlocale(change)",
                                      // process-wide settings: a call that changes one (even if it puts it back) is visible to every thread
-                                     "umask", "setenv", "putenv", "unsetenv", "chdir", "fesetround", "signal", "sigaction", "srand", nullptr};
+                                     "umask", "setenv", "putenv", "unsetenv", "chdir", "fesetround", "signal", "sigaction", "srand",
+                                     // more libc facilities with static result buffers / hidden generator state
+                                     "ecvt", "fcvt", "random", "srandom", "drand48", "lrand48", "mrand48", "srand48", "strsignal", "inet_ntoa",
+                                     "ttyname", "getlogin", "l64a", nullptr};
 static void libc_probe(int idx) {
     Task *t = t_self;
     if (t && t->op) {
@@ -433,6 +439,11 @@ static void alloc_body(void *p_) {
     }
     uint32_t s;
     c->result = nullptr;
+    if (c->kind == 4) { // request made through a libc convenience allocator: only count it and decide
+        c->result = alloc_request(t, c->ra, &s) ? (void *)1 : nullptr;
+        t->in_op = save;
+        return;
+    }
     if (alloc_request(t, c->ra, &s)) errno = ENOMEM;
     else if (c->kind == 0) {
         c->result = malloc(c->a);
@@ -516,6 +527,85 @@ int __wrap_fesetround(int m) { libc_probe(13); int r = fesetround(m); on_event()
 sighandler_t __wrap_signal(int sig, sighandler_t h) { libc_probe(14); sighandler_t r = signal(sig, h); on_event(); return r; }
 int __wrap_sigaction(int sig, const struct sigaction *a, struct sigaction *o) { if (a) libc_probe(15); else on_event(); int r = sigaction(sig, a, o); on_event(); return r; }
 void __wrap_srand(unsigned s) { libc_probe(16); srand(s); on_event(); }
+char *__wrap_ecvt(double v, int n, int *d, int *sg) { libc_probe(17); char *r = ecvt(v, n, d, sg); on_event(); return r; }
+char *__wrap_fcvt(double v, int n, int *d, int *sg) { libc_probe(18); char *r = fcvt(v, n, d, sg); on_event(); return r; }
+long __wrap_random(void) { libc_probe(19); return random(); }
+void __wrap_srandom(unsigned s) { libc_probe(20); srandom(s); }
+double __wrap_drand48(void) { libc_probe(21); return drand48(); }
+long __wrap_lrand48(void) { libc_probe(22); return lrand48(); }
+long __wrap_mrand48(void) { libc_probe(23); return mrand48(); }
+void __wrap_srand48(long s) { libc_probe(24); srand48(s); }
+char *__wrap_strsignal(int sig) { libc_probe(25); char *r = strsignal(sig); on_event(); return r; }
+char *__wrap_inet_ntoa(struct in_addr a) { libc_probe(26); char *r = inet_ntoa(a); on_event(); return r; }
+char *__wrap_ttyname(int fd) { libc_probe(27); char *r = ttyname(fd); on_event(); return r; }
+char *__wrap_getlogin(void) { libc_probe(28); char *r = getlogin(); on_event(); return r; }
+char *__wrap_l64a(long v) { libc_probe(29); char *r = l64a(v); on_event(); return r; }
+
+// allocation through libc convenience functions is still "a dynamic allocation the library performs": counted,
+// failed on demand and tracked like malloc (C20)
+static void *track_result(void *p, size_t n, uintptr_t ra) {
+    Task *t = t_self;
+    if (p && t && t->op) {
+        g_live.push_back({p, n, site_id(ra), t->id, t->cur_op});
+        forget_freed(p);
+    }
+    return p;
+}
+static bool convenience_request(uintptr_t ra) {
+    Task *t = t_self;
+    if (!t || !t->op) return false;
+    AllocCall c = {4, 0, 0, nullptr, ra, nullptr};
+    alt_call(alloc_body, &c);
+    return c.result == (void *)1; // 1 = fail this request
+}
+char *__wrap_strdup(const char *s) {
+    uintptr_t ra = (uintptr_t)__builtin_return_address(0);
+    if (convenience_request(ra)) { errno = ENOMEM; return nullptr; }
+    return (char *)track_result(strdup(s), strlen(s) + 1, ra);
+}
+char *__wrap_strndup(const char *s, size_t n) {
+    uintptr_t ra = (uintptr_t)__builtin_return_address(0);
+    if (convenience_request(ra)) { errno = ENOMEM; return nullptr; }
+    return (char *)track_result(strndup(s, n), n + 1, ra);
+}
+wchar_t *__wrap_wcsdup(const wchar_t *s) {
+    uintptr_t ra = (uintptr_t)__builtin_return_address(0);
+    if (convenience_request(ra)) { errno = ENOMEM; return nullptr; }
+    return (wchar_t *)track_result(wcsdup(s), (wcslen(s) + 1) * sizeof(wchar_t), ra);
+}
+int __wrap_vasprintf(char **strp, const char *fmt, va_list ap) {
+    uintptr_t ra = (uintptr_t)__builtin_return_address(0);
+    if (convenience_request(ra)) { errno = ENOMEM; *strp = nullptr; return -1; }
+    int r = vasprintf(strp, fmt, ap);
+    if (r >= 0) track_result(*strp, (size_t)r + 1, ra);
+    return r;
+}
+int __wrap_asprintf(char **strp, const char *fmt, ...) {
+    uintptr_t ra = (uintptr_t)__builtin_return_address(0);
+    if (convenience_request(ra)) { errno = ENOMEM; *strp = nullptr; return -1; }
+    va_list ap;
+    va_start(ap, fmt);
+    int r = vasprintf(strp, fmt, ap);
+    va_end(ap);
+    if (r >= 0) track_result(*strp, (size_t)r + 1, ra);
+    return r;
+}
+void *__wrap_reallocarray(void *old, size_t a, size_t b) {
+    if (b && a > (size_t)-1 / b) { errno = ENOMEM; return nullptr; }
+    return __wrap_realloc(old, a * b);
+}
+void *__wrap_aligned_alloc(size_t al, size_t n) {
+    uintptr_t ra = (uintptr_t)__builtin_return_address(0);
+    if (convenience_request(ra)) { errno = ENOMEM; return nullptr; }
+    return track_result(aligned_alloc(al, n), n, ra);
+}
+int __wrap_posix_memalign(void **out, size_t al, size_t n) {
+    uintptr_t ra = (uintptr_t)__builtin_return_address(0);
+    if (convenience_request(ra)) return ENOMEM;
+    int r = posix_memalign(out, al, n);
+    if (!r) track_result(*out, n, ra);
+    return r;
+}
 char *__wrap_setlocale(int cat, const char *loc) { if (loc) libc_probe(7); else on_event(); char *r = setlocale(cat, loc); on_event(); return r; }
 }
 
